@@ -905,6 +905,35 @@ def _r4_setitem(ctx, f, m):
                         p = pat.cmp_parts(ctx, f, ae, apol)
                         if p:
                             got.add((p[0], p[1].replace(" ", ""), p[2].replace(" ", "")))
+        # the neighbours of position p are p - 1 and p + 1 only for p >= 0: a
+        # negative position (legal for the list store) must have been turned
+        # into the real one, or rejected, before the tests run
+        pv = m.args[0]
+        nonneg = False
+        if isinstance(pv, ast.Name):
+            for n in f.own_nodes():
+                if isinstance(n, ast.If) and g.dominates(n, m.stmt):
+                    a_ = pat.catoms(ctx, f, n.test, True, False)
+                    if pat.A("<", pv.id, "0") in a_:
+                        for b in n.body:
+                            if isinstance(b, ast.AugAssign) and text(b.target) == pv.id and \
+                                    isinstance(b.op, ast.Add) and \
+                                    text(b.value).replace(" ", "") in (
+                                        "len(%s.coords)" % base, "len(%s)" % base,
+                                        "len(%s.payloads)" % base):
+                                nonneg = True
+                            if isinstance(b, ast.Raise):
+                                nonneg = True
+        if nonneg:
+            ctx.ok("C01.R4", f, m.node, "(c) a negative position is normalised / "
+                   "rejected before the neighbour tests", text_="setitem position non-negative")
+        else:
+            ctx.bad("C01.R4", f, m.node, "(c) guarded replace: the neighbour tests "
+                    "look at `%s - 1` and `%s + 1`, which are the neighbours only "
+                    "of a non-negative position, but a negative position reaches "
+                    "the list store unchanged: Fiber([2,5,8],[1,2,3])[-1] = "
+                    "CoordPayload(1, 9) is accepted and leaves coords [2, 5, 1]"
+                    % (pos, pos), text_="setitem position non-negative")
         want = {(o, a.replace(" ", ""), b.replace(" ", "")) for o, a, b in want}
         missing = want - got
         if not missing:
